@@ -10,6 +10,7 @@ import Driver.C10
 import Driver.C13
 import Driver.C14
 import Driver.C16
+import Driver.C16Req
 import Driver.C12
 import Driver.C02
 import Driver.C08
@@ -44,6 +45,7 @@ def dispatch (inp obs : List String) : Verdict :=
   | some "C14" => Driver.C14.run inp obs
   | some "C16" => Driver.C16.run inp obs
   | some "C16path" => Driver.C16.runPath inp obs
+  | some "C16req" => Driver.C16Req.run inp obs
   | some "C16pp" => Driver.C16.runPair inp obs
   | some "C12" => Driver.C12.run inp obs
   | some "C02" => Driver.C02.run inp obs
